@@ -489,7 +489,7 @@ class DataFormat(object):
                         % (name_for_errors, _compat.text_repr(value)),
                         location,
                     )
-            except tokenize.TokenError as error:
+            except (tokenize.TokenError, SyntaxError) as error:
                 raise errors.InterfaceError(
                     "value for %s must be a valid Python token: %s (error: %s)"
                     % (name_for_errors, _compat.text_repr(value), error),
